@@ -87,7 +87,9 @@ impl World {
         mrecordlog::verif::set_hash_seed(self.knobs.hash_seed);
         mrecordlog::verif::set_bufwriter_capacity(self.knobs.bufwriter_capacity);
         IN_SUT.with(|c| c.set(true));
+        crate::watchdog::call_enter();
         let res = catch_unwind(AssertUnwindSafe(|| f(self)));
+        crate::watchdog::call_exit();
         IN_SUT.with(|c| c.set(false));
         mrecordlog::verif::install_fs(prev);
         res.map_err(|_| last_panic())
